@@ -7,13 +7,20 @@ package executors
 
 import (
 	"fmt"
+	"os"
 	"sort"
+	"strings"
 	"sync"
+	"sync/atomic"
 	"testing"
 	"time"
 )
 
 func TestGzvReplayExecutors(t *testing.T) {
+	gzvF16TwoProducers(t)
+	if t.Failed() {
+		return
+	}
 	for _, kind := range []string{"bulk", "chunk"} {
 		for _, threshold := range []int{1, 2, 3, 5} {
 			for _, total := range []int{1, 2, 3, 4, 7, 11} {
@@ -97,4 +104,88 @@ func TestGzvReplayExecutors(t *testing.T) {
 			}
 		}
 	}
+}
+
+// --- F16: two producers, one paused inside Add between the hand-over and the confirmation ---
+// producerRegisters reports whether Add registers its batch with the wait group itself, before the hand-over (the repaired
+// protocol), so that the emulated first half of producer A's Add below executes the statements the source has.
+func f16ProducerRegisters(t *testing.T) bool {
+	src, err := os.ReadFile("periodicalexecutor.go")
+	if err != nil {
+		t.Fatal(err)
+	}
+	body := string(src)
+	i := strings.Index(body, "func (pe *PeriodicalExecutor) Add(")
+	j := strings.Index(body[i:], "pe.commander <- vals")
+	if i < 0 || j < 0 {
+		t.Fatal("Add has an unexpected shape")
+	}
+	return strings.Contains(body[i:i+j], "pe.enterExecution()")
+}
+
+type f16Container struct {
+	tasks []any
+	exec  func(tasks any)
+}
+
+func (c *f16Container) AddTask(task any) bool { c.tasks = append(c.tasks, task); return true } // threshold 1
+func (c *f16Container) Execute(tasks any)     { c.exec(tasks) }
+func (c *f16Container) RemoveAll() any        { t := c.tasks; c.tasks = nil; return t }
+
+func gzvF16TwoProducers(t *testing.T) {
+	gateA := make(chan struct{})
+	gateB := make(chan struct{})
+	var doneB int32
+	c := &f16Container{}
+	c.exec = func(tasks any) {
+		for _, x := range tasks.([]any) {
+			switch x.(string) {
+			case "A":
+				<-gateA
+			case "B":
+				<-gateB
+				atomic.StoreInt32(&doneB, 1)
+			}
+		}
+	}
+	pe := NewPeriodicalExecutor(time.Hour, c)
+	// producer A, first statement of Add (the real addAndCheck and the real send)
+	vals, ok := pe.addAndCheck("A")
+	if !ok {
+		t.Fatal("threshold not reached")
+	}
+	if f16ProducerRegisters(t) {
+		pe.enterExecution()
+	}
+	pe.commander <- vals
+	// ... A is descheduled here, before `<-pe.confirmChan`.
+	// wait until the flusher has taken A's batch (inflight back to 0) - it then registers it and offers the confirmation
+	for i := 0; atomic.LoadInt32(&pe.inflight) != 0; i++ {
+		if i > 5000 {
+			t.Fatal("flusher did not take A's batch")
+		}
+		time.Sleep(time.Millisecond)
+	}
+	// producer B: the real Add, then the real Wait
+	waitReturned := make(chan struct{})
+	go func() {
+		pe.Add("B")
+		pe.Wait()
+		close(waitReturned)
+	}()
+	// B's Wait can only return after A's batch is done (that one is registered): let A's batch finish
+	time.Sleep(50 * time.Millisecond)
+	close(gateA)
+	select {
+	case <-waitReturned:
+		if atomic.LoadInt32(&doneB) == 0 {
+			t.Errorf("GZV-REPRODUCED periodical executor, two producers (A paused inside Add between the hand-over and the confirmation): B's Add took A's confirmation; B's Wait returned although B's own task has not been executed (its callback has not returned)")
+		}
+	case <-time.After(2 * time.Second):
+		// B's Wait is still waiting for B's task: the property holds on this schedule
+	}
+	close(gateB)
+	// let A finish its Add so that nothing is left blocked
+	go func() { <-pe.confirmChan }()
+	time.Sleep(50 * time.Millisecond)
 }
